@@ -42,26 +42,27 @@ type uciSim struct {
 	out    <-chan string
 	start  time.Time
 
-	inClosed   bool
-	outClosed  bool
-	loop       loopState
-	loopInCmd  bool   // the loop is between loop.recv (released) and the next loop.idle: it may hold Engine.mu
-	mtInFlight string // name of a movetime-timer task between its two hooks (it takes Engine.mu)
-	lines      []outLine
-	stall      int
-	deadlines  []time.Duration // known timer instants (relative to start), for choosing clock advances
-	steps      int
-	maxSteps   int
-	budgetHit  bool
-	quiet      int // consecutive steps without any observable change (deadlock detection)
-	lastCmd    string
-	frugal     bool // the running search cannot end by itself: do not burn evaluations on it
-	onRelease  func(tk *Task)
-	drainedAt  int            // last step at which the output was read until empty
-	drainBase  int            // drainedAt as it was when the sync in progress began
-	loopMark   int            // work counter when the command loop was last seen at a park point or in its select
-	roleW      map[string]int // scheduling bias of this run: a starved role is picked rarely ("slow task" fault)
-	delivered  []string
+	inClosed    bool
+	outClosed   bool
+	loop        loopState
+	clockEvents int    // clock advances so far (they are events, but not progress of the system)
+	loopInCmd   bool   // the loop is between loop.recv (released) and the next loop.idle: it may hold Engine.mu
+	mtInFlight  string // name of a movetime-timer task between its two hooks (it takes Engine.mu)
+	lines       []outLine
+	stall       int
+	deadlines   []time.Duration // known timer instants (relative to start), for choosing clock advances
+	steps       int
+	maxSteps    int
+	budgetHit   bool
+	quiet       int // consecutive steps without any observable change (deadlock detection)
+	lastCmd     string
+	frugal      bool // the running search cannot end by itself: do not burn evaluations on it
+	onRelease   func(tk *Task)
+	drainedAt   int            // last step at which the output was read until empty
+	drainBase   int            // drainedAt as it was when the sync in progress began
+	loopMark    int            // work counter when the command loop was last seen at a park point or in its select
+	roleW       map[string]int // scheduling bias of this run: a starved role is picked rarely ("slow task" fault)
+	delivered   []string
 }
 
 func newUCISim(k *Kernel, t *tape.Tape, res *core.RunResult, w Wiring, opts engine.Options) *uciSim {
@@ -119,7 +120,7 @@ func (s *uciSim) sync() {
 		case "loop.idle":
 			s.loop = lsIdleParked
 			s.loopInCmd = false
-		case "loop.recv", "loop.ponder", "loop.expired", "loop.afterAnalyze", "loop.exit", "engine.lock", "halt.enter", "halt.woken", "halt.closed", "complete.cas":
+		case "loop.recv", "loop.ponder", "loop.expired", "loop.afterAnalyze", "loop.exit", "engine.lock", "halt.enter", "halt.woken", "halt.closed", "halt.unwound", "mutex.lock", "complete.cas":
 			s.loop = lsBusy
 		}
 	}
@@ -205,10 +206,7 @@ func (s *uciSim) closeInput() {
 
 // releasable: a task parked in front of Engine.mu may go on only while the lock is free.
 func (s *uciSim) releasable(tk *Task) bool {
-	if tk.Point == "engine.lock" {
-		return !s.k.LockHeld()
-	}
-	return true
+	return s.k.Runnable(tk)
 }
 
 func (s *uciSim) release(tk *Task, credit int) {
@@ -248,6 +246,7 @@ func (s *uciSim) drawCredit() int {
 func (s *uciSim) advance(d time.Duration) {
 	s.res.Tracef("[%d] clock +%v", s.steps, d)
 	s.k.Event(fmt.Sprintf("clock+%d", d))
+	s.clockEvents++
 	time.Sleep(d)
 	s.res.SimNanos += int64(d)
 }
@@ -405,7 +404,10 @@ func (s *uciSim) teardown() {
 		s.k.Wait()
 		s.consume()
 	}
-	s.b.E.Halt(s.ctx)
+	if !s.k.LockHeld() {
+		// (held at a quiescent point: its holder is stuck inside an Engine call, and so would the controller be)
+		s.b.E.Halt(s.ctx)
+	}
 	time.Sleep(24 * time.Hour)
 	s.k.Wait()
 	s.consume()
